@@ -316,6 +316,9 @@ def finish(ctx, obligations, discharged, theorems, rule, checker_cmd, assumption
     cov.update(ctx.cov)
     if extra:
         cov.update(extra)
+    lines_cov = implementation_line_coverage(ctx.prop)
+    if lines_cov is not None:
+        cov["implementation_line_coverage"] = lines_cov
     ev = {
         "property_id": ctx.prop,
         "tier": ctx.tier,
@@ -332,6 +335,39 @@ def finish(ctx, obligations, discharged, theorems, rule, checker_cmd, assumption
         json.dump(ev, f, indent=1, ensure_ascii=True, default=str)
         f.write("\n")
     return code
+
+
+_coverage = None      # set by cli.main when line coverage of the implementation is measured (ZCV_COVERAGE=1 / thorough tier)
+
+
+def implementation_line_coverage(prop):
+    """which lines of the property's anchored source files this run executed in-process (coverage.py): per file
+    executed / executable statements and the statements never reached.  Says how much of the modelled code the
+    correspondence and the exploration actually exercised; it decides nothing."""
+    global _coverage
+    if _coverage is None:
+        return None
+    cov, _coverage = _coverage, None
+    try:
+        cov.stop()
+        files = []
+        for l in open(os.path.join(VERIF, "properties.jsonl")):
+            p = json.loads(l)
+            if p["id"] == prop:
+                files = [f for f in p.get("anchors", {}).get("files", []) if f.endswith(".py")]
+        out = {}
+        for rel in files:
+            path = os.path.join(REPO, rel)
+            try:
+                _, executable, _, missing, _ = cov.analysis2(path)
+            except Exception as e:
+                out[rel] = {"error": type(e).__name__}
+                continue
+            out[rel] = {"executable_statements": len(executable), "executed": len(executable) - len(missing),
+                        "never_reached_lines": missing[:60]}
+        return out
+    except Exception as e:
+        return {"error": "%s: %s" % (type(e).__name__, e)}
 
 
 def standard_prelude(ctx, build_targets):
